@@ -24,7 +24,7 @@ theorem capOf_lt (c : Cfg) (v : VS) (h : v.cap < USIZE) : capOf c v < USIZE := b
   · exact h
 
 /-- the arena never serves more than `isize::MAX` bytes -/
-def CfgOK (c : Cfg) : Prop := c.allocLimit < 2 ^ 63
+def CfgOK (c : Cfg) : Prop := c.allocLimit < 2 ^ 63 ∧ c.allocLimit + c.eal ≤ 2 ^ 63
 
 /-- `Rep` plus the machine bounds on the `cap` field -/
 structure RepB (c : Cfg) (v : VS) (xs : List Elem) : Prop extends Rep c v xs where
@@ -59,10 +59,10 @@ theorem reserveInternal_ok {c : Cfg} {v v' : VS} {used extra : Nat} {exact : Boo
       · cases h
       · rename_i hal
         cases h
-        simp only [checkedMul] at hb
+        simp only [arrayLayout] at hb
         split at hb
-        · rename_i hlt
-          cases hb
+        · cases hb
+        · cases hb
           simp only [Bool.or_eq_true, Bool.not_eq_eq_eq_not, Bool.not_true, decide_eq_true_eq, not_or,
             Bool.not_eq_false, Nat.not_lt] at hal
           have hsz : c.esz * newCap < 2 ^ 63 := by have := hal.2; unfold CfgOK at hc; omega
@@ -71,7 +71,6 @@ theorem reserveInternal_ok {c : Cfg} {v v' : VS} {used extra : Nat} {exact : Boo
             omega
           have hU : USIZE = 2 ^ 64 := rfl
           exact ⟨hn.1, rfl, rfl, by simp only [hU]; omega, hn.2⟩
-        · cases hb
 
 /-- what a successful `RawVec::reserve*(used, extra)` guarantees -/
 theorem reserveGen_ok {c : Cfg} {v v' : VS} {xs : List Elem} {used extra : Nat} {exact : Bool} (hc : CfgOK c)
